@@ -2458,6 +2458,9 @@ class PyCdlib:
                 # As for the other namespaces, if a boot info table is
                 # present, overlay the table over bytes 8-64 of the file.
                 if found_file_entry.inode.boot_info_table is not None:
+                    # The table records extents, so they have to be assigned.
+                    if self._needs_reshuffle:
+                        self._reshuffle_extents()
                     header_len = min(data_len, 8)
                     outfp.write(data_fp.read(header_len))
                     data_len -= header_len
@@ -2540,6 +2543,9 @@ class PyCdlib:
                 # file.  Note that we never return more bytes than the length
                 # of the file, so the boot info table may get truncated.
                 if found_record.inode.boot_info_table is not None:
+                    # The table records extents, so they have to be assigned.
+                    if self._needs_reshuffle:
+                        self._reshuffle_extents()
                     header_len = min(data_len, 8)
                     outfp.write(data_fp.read(header_len))
                     data_len -= header_len
